@@ -308,6 +308,7 @@ class Sim:
                 # every task is blocked for ever
                 self.failure = ('deadlock', [(t.name, t.waiting_on) for t in self.tasks
                                              if t.state == 'blocked'])
+                self.deadlock_stacks = self._stacks(14)     # diagnostics only
                 self._finish()
                 nxt = None
                 break
